@@ -41,6 +41,10 @@ def main():
     seed = int(os.environ.get('VERIF_SEED', '1') or 1)
     pid = args.pid.upper()
 
+    if os.environ.get('VERIF_WERROR'):
+        import warnings
+        warnings.simplefilter('ignore')
+        warnings.filterwarnings('error', module=r'mido(\.|$)')
     import mido
     repo = os.path.realpath(harness.REPO)
     if not os.path.realpath(mido.__file__).startswith(repo + os.sep):
@@ -66,6 +70,16 @@ def main():
         with open(args.replay) as f:
             data = json.load(f)
         case = data['case'] if 'case' in data and 'property' in data else data
+        if isinstance(case, dict) and case.get('_interpreter') and not os.environ.get('VERIF_CHILD'):
+            # found by the variant run: replay it under the same interpreter settings
+            import subprocess
+            env = dict(os.environ, VERIF_CHILD='1', VERIF_WERROR='1', PYTHONIOENCODING='ascii')
+            env.pop('PYTHONWARNINGS', None)
+            p = subprocess.run([sys.executable, '-B', '-O', '-bb', os.path.join(HERE, 'run_check.py'), pid, '--replay',
+                                args.replay], env=env, cwd=HERE)
+            return p.returncode
+        if isinstance(case, dict):
+            case = {k: v for k, v in case.items() if k != '_interpreter'}
         unknown = ctx.check(case, sample=True)
         for fl in unknown:
             print(f'  failure clause={fl["clause"]} sig={fl["sig"]}: {fl["detail"][:1500]}')
@@ -84,8 +98,45 @@ def main():
         case = data['case'] if 'case' in data and 'property' in data else data
         ctx.check(case, classes=('regression',), sample=False)
 
+    ctx.reduced = bool(os.environ.get('VERIF_CHILD'))
     mod.main(ctx)
+    if not os.environ.get('VERIF_CHILD') and not os.environ.get('VERIF_NO_CHILD'):
+        run_variant(ctx, pid, args.tier, seed)
     return ctx.finish()
+
+
+def run_variant(ctx, pid, tier, seed):
+    """The same check once more, reduced, in a child interpreter started the way some deployments start Python:
+    optimised (-O: asserts and __debug__ blocks are stripped), with bytes/str confusion as an error (-bb), with warnings
+    raised from mido modules turned into errors, and with an ASCII-only stdout.  A property must not depend on these."""
+    import json as _json
+    import re
+    import subprocess
+    env = dict(os.environ, VERIF_CHILD='1', VERIF_WERROR='1', PYTHONIOENCODING='ascii', VERIF_SEED=str(seed))
+    env.pop('PYTHONWARNINGS', None)
+    cmd = [sys.executable, '-B', '-O', '-bb', os.path.join(HERE, 'run_check.py'), pid, '--tier', 'quick']
+    try:
+        p = subprocess.run(cmd, capture_output=True, text=True, env=env, cwd=HERE, timeout=3600)
+    except subprocess.TimeoutExpired:
+        ctx.notes.append('variant run (python -O -bb, warnings as errors): wall-clock budget reached - inconclusive')
+        return
+    out = p.stdout + p.stderr
+    m = re.search(r'evaluations=(\d+) distinct_nontrivial=(\d+)', out)
+    if m:
+        ctx.classes['variant-run(-O -bb -Werror ascii-stdout)-evaluations'] += int(m.group(1))
+        ctx.evals += int(m.group(1))
+    if p.returncode == 1:
+        for rel in re.findall(r'VIOLATION property=\S+ replay=(\S+)', out):
+            try:
+                data = _json.load(open(os.path.join(HERE, rel)))
+                case = dict(data['case']) if isinstance(data['case'], dict) else {'case': data['case']}
+                case['_interpreter'] = 'python -O -bb, mido warnings as errors, ascii stdout'
+                fs = [dict(f, sig=f['sig'] + '|variant') for f in data['failures']]
+                ctx.note_violation(case, fs)
+            except Exception:  # noqa: BLE001
+                pass
+    elif p.returncode != 0:
+        raise harness.HarnessError('variant run failed: ' + out[-1500:])
 
 
 if __name__ == '__main__':
